@@ -946,11 +946,15 @@ end
 
 /-- how a persisted Nibiru account and a persisted reference account correspond; go-ethereum deletes an account that ends a
     transaction empty, Nibiru persists it as an empty record — the two are identified -/
-def AcctRel : Option StoreAcc → Option (Nat × Nat × Int) → Prop
+def AcctRel (E : Prop) : Option StoreAcc → Option (Nat × Nat × Int) → Prop
   | some x, some y => y = (x.nonce, x.codeHash, x.balance * weiPerUnibi)
   | none, none => True
-  | some x, none => x.nonce = 0 ∧ x.codeHash = 0 ∧ x.balance = 0
+  | some x, none => x.nonce = 0 ∧ x.codeHash = 0 ∧ x.balance = 0 ∧ E    -- `E`: why the reference has no account here
   | none, some _ => False
+
+/-- the reference deleted the account at `a` because it ended the transaction empty (EIP-161) -/
+def EndedEmpty (g : GethSpec.G) (a : Nat) : Prop :=
+  ∃ x, AList.find? g.tx.objs a = some x ∧ x.suicided = false ∧ x.nonce = 0 ∧ x.balance = 0 ∧ x.code = 0
 
 theorem view_parts {a : Nat} {B : GethSpec.Base} {p : Option (Nat × Nat × Int)} {f : Nat → Nat}
     (h : GethSpec.view a B = (p, f)) : AList.find? B.accts a = p ∧ ∀ k, B.slot a k = f k :=
@@ -998,7 +1002,8 @@ theorem C03_transaction_commit_matches_reference_partial (st : Store) (b : GethS
        (∀ a x, AList.find? (runGTL { base := b } body).tx.objs a = some x → x.suicided = false →
           x.nonce = 0 → x.balance = 0 → x.code = 0 →
           ∀ k, GethSpec.stateOf (runGTL { base := b } body) a x k = 0 ∧ b.slot a k = 0) →
-       ∀ a, AcctRel ((commit s').txStore.acct a) (AList.find? (GethSpec.commit (runGTL { base := b } body)).base.accts a) ∧
+       ∀ a, AcctRel (EndedEmpty (runGTL { base := b } body) a) ((commit s').txStore.acct a)
+              (AList.find? (GethSpec.commit (runGTL { base := b } body)).base.accts a) ∧
             ∀ k, (commit s').txStore.slot a k = (GethSpec.commit (runGTL { base := b } body)).base.slot a k) := by
   have f0 : Full st { txStore := st } { base := b } := by
     refine ⟨sim_init st b hok hacc hslot, ninv_fresh st, fun e he => (by cases he), fun a _ => ?_, rfl, fun r hr => (by cases hr),
@@ -1044,7 +1049,7 @@ theorem C03_transaction_commit_matches_reference_partial (st : Store) (b : GethS
       | true =>
         obtain ⟨d1, d2, d3⟩ := (dead_iff x hxs).mp hdead
         obtain ⟨z1, z2⟩ := fun k => hempty a x hx hxs d1 d2 d3 k |>.1, fun k => (hempty a x hx hxs d1 d2 d3 k).2
-        refine ⟨⟨by rw [r2]; exact d1, by rw [r3]; exact d3, by rw [r1, d2]; rfl⟩, fun k => ?_⟩
+        refine ⟨⟨by rw [r2]; exact d1, by rw [r3]; exact d3, by rw [r1, d2]; rfl, x, hx, hxs, d1, d2, d3⟩, fun k => ?_⟩
         rw [p2 k, gs k, hdead, r5 k, z1 k]
         simp only [if_true, hxs, Bool.false_or]
         split
@@ -1108,7 +1113,7 @@ theorem C03_transaction_commit_matches_reference_partial (st : Store) (b : GethS
             | true =>
               obtain ⟨d1, d2, d3⟩ := (dead_iff x hxs).mp hdead
               have z := hempty a x hx hxs d1 d2 d3
-              refine ⟨⟨by rw [← q2, r2]; exact d1, by rw [← q3, r3]; exact d3, ?_⟩, fun k => ?_⟩
+              refine ⟨⟨by rw [← q2, r2]; exact d1, by rw [← q3, r3]; exact d3, ?_, x, hx, hxs, d1, d2, d3⟩, fun k => ?_⟩
               · have hb0 : y.balance * weiPerUnibi = 0 := by rw [← q1, r1]; exact d2
                 rcases Int.mul_eq_zero.mp hb0 with h0 | h0
                 · exact h0
@@ -1166,7 +1171,7 @@ theorem demoTx_ok : Tree.OKL2 demoStore demoTx := by
 
 /-- the side conditions of the theorem hold for `demoTx`, so its conclusion does: after `Commit` every address holds what the
     reference's write-back holds (account 1: nonce 2, code 7, 8 unibi, slot 0 = 5; account 4: 2 unibi; accounts 2 and 3: nothing) -/
-example : ∀ a, AcctRel ((commit demoFinal).txStore.acct a)
+example : ∀ a, AcctRel (EndedEmpty (runGTL { base := demoBase } demoTx) a) ((commit demoFinal).txStore.acct a)
       (AList.find? (GethSpec.commit (runGTL { base := demoBase } demoTx)).base.accts a) ∧
     ∀ k, (commit demoFinal).txStore.slot a k = (GethSpec.commit (runGTL { base := demoBase } demoTx)).base.slot a k := by
   obtain ⟨s', hr, h⟩ := C03_transaction_commit_matches_reference_partial demoStore demoBase demoStore_ok demo_acc (fun _ _ => rfl)
@@ -1210,5 +1215,168 @@ example : ∀ a, AcctRel ((commit demoFinal).txStore.acct a)
       · have n1 : (1 : Nat) ≠ a := fun e => h1 e.symm
         have n4 : (4 : Nat) ≠ a := fun e => h4 e.symm
         simp [AList.find?, n1, n4] at hx
+
+/-! ### sequences of transactions -/
+
+/-- an account that is absent after `Commit` has no storage left -/
+theorem commit_absent_no_slots (st : Store) (hok : ∀ a, st.acct a = none → ∀ k, st.slot a k = 0) (body : List Tree) :
+    ∃ s', runTL { txStore := st } body = some s' ∧
+      ∀ a, (commit s').txStore.acct a = none → ∀ k, (commit s').txStore.slot a k = 0 := by
+  obtain ⟨s', hr, n, x, _⟩ := runTL_tx body { txStore := st } (ninv_fresh st) (fun r hr => by cases hr)
+  refine ⟨s', hr, fun a hnone k => ?_⟩
+  have hwf : WF s' := n.inv.1
+  have hst : s'.txStore = st := x.store
+  by_cases hD : a ∈ s'.dirties.map (·.1)
+  · obtain ⟨e, he, hde⟩ := (dj_mem s' n.dj a).mp hD
+    obtain ⟨o, ho⟩ := n.ec e he a hde
+    cases hsu : o.suicided with
+    | true =>
+      obtain ⟨_, p2⟩ := commit_deletes_suicided s' hwf.1 a o ho hD hsu
+      cases hy : s'.txStore.acct a with
+      | some y => exact p2 k y hy
+      | none =>
+        rw [commit_suicided_absent s' hwf.1 a o ho hD hsu hy k, hst]
+        exact hok a (by rw [← hst]; exact hy) k
+    | false =>
+      obtain ⟨p1, _⟩ := commit_persists_view s' hwf a o ho hD hsu
+      rw [p1] at hnone; cases hnone
+  · obtain ⟨p1, p2⟩ := commit_frame s' hwf.1 a hD
+    rw [hst] at p1 p2
+    rw [p2 k]
+    exact hok a (by rw [← p1]; exact hnone) k
+
+/-- the persisted states agree exactly: what `sim_init` asks for at the start of a transaction -/
+structure StoreEq (st : Store) (b : GethSpec.Base) : Prop where
+  ok : ∀ a, st.acct a = none → ∀ k, st.slot a k = 0
+  acc : ∀ a, AList.find? b.accts a = (st.acct a).map (fun x => (x.nonce, x.codeHash, x.balance * weiPerUnibi))
+  slot : ∀ a k, b.slot a k = st.slot a k
+
+/-- what one transaction leaves in Nibiru's store / in the reference's base -/
+def persistN (st : Store) (body : List Tree) : Store := (commit ((runTL { txStore := st } body).getD {})).txStore
+def persistG (b : GethSpec.Base) (body : List Tree) : GethSpec.Base := (GethSpec.commit (runGTL { base := b } body)).base
+
+/-- the side conditions of one transaction over `(st, b)`: `CreateAccount` only where `evm.create` may call it; balances written
+    back are whole unibi; no materialised account ends the transaction empty (so the reference deletes nothing as empty) -/
+structure TxOK (st : Store) (b : GethSpec.Base) (body : List Tree) : Prop where
+  create : Tree.OKL2 st body
+  whole : ∀ s', runTL { txStore := st } body = some s' →
+    ∀ a o, AList.find? s'.objs a = some o → a ∈ s'.dirties.map (·.1) → ∃ u : Int, o.balance = u * weiPerUnibi
+  noEmpty : ∀ a, ¬ EndedEmpty (runGTL { base := b } body) a
+
+theorem storeEq_step (st : Store) (b : GethSpec.Base) (h : StoreEq st b) (body : List Tree) (hok : TxOK st b body) :
+    StoreEq (persistN st body) (persistG b body) := by
+  obtain ⟨s', hrun, hmain⟩ := C03_transaction_commit_matches_reference_partial st b h.ok h.acc h.slot body hok.create
+  obtain ⟨s'', hrun', habs⟩ := commit_absent_no_slots st h.ok body
+  have e : s'' = s' := by rw [hrun] at hrun'; exact (Option.some.inj hrun').symm
+  subst e
+  have hp : persistN st body = (commit s'').txStore := by unfold persistN; rw [hrun]; rfl
+  have hconcl := hmain (hok.whole s'' hrun) (fun a x hx hs hn hb hc => absurd ⟨x, hx, hs, hn, hb, hc⟩ (hok.noEmpty a))
+  rw [hp]
+  refine ⟨habs, fun a => ?_, fun a k => ((hconcl a).2 k).symm⟩
+  have hr := (hconcl a).1
+  unfold persistG
+  cases hx : (commit s'').txStore.acct a with
+  | none =>
+    rw [hx] at hr
+    cases hy : AList.find? (GethSpec.commit (runGTL { base := b } body)).base.accts a with
+    | none => rfl
+    | some y => rw [hy] at hr; exact False.elim hr
+  | some x =>
+    rw [hx] at hr
+    cases hy : AList.find? (GethSpec.commit (runGTL { base := b } body)).base.accts a with
+    | none => rw [hy] at hr; exact absurd hr.2.2.2 (hok.noEmpty a)
+    | some y => rw [hy] at hr; simp only [Option.map]; rw [hr]
+
+def runTxsN (st : Store) : List (List Tree) → Store
+  | [] => st
+  | body :: rest => runTxsN (persistN st body) rest
+def runTxsG (b : GethSpec.Base) : List (List Tree) → GethSpec.Base
+  | [] => b
+  | body :: rest => runTxsG (persistG b body) rest
+
+/-- every transaction of the history meets its side conditions at the state it starts from -/
+def AllOK (st : Store) (b : GethSpec.Base) : List (List Tree) → Prop
+  | [] => True
+  | body :: rest => TxOK st b body ∧ AllOK (persistN st body) (persistG b body) rest
+
+/-- **C03 (partial) — any history of transactions without precompile calls.** Starting from equal persisted data, after ANY sequence
+    of transactions (each any body of reads, writes, `CreateAccount`s and nested call frames, each followed by the respective
+    write-back), Nibiru's store and go-ethereum's state hold the same accounts — nonce, code hash, balance — and the same value in
+    every storage slot.  Side conditions per transaction (`TxOK`): `CreateAccount` where `evm.create` may call it, whole-unibi
+    balances at write-back, and no account ends a transaction empty (that is where go-ethereum deletes and Nibiru keeps an empty
+    record; the single-transaction theorem above covers it, the equality of the NEXT start states does not). -/
+theorem C03_history_commits_match_reference_partial (txs : List (List Tree)) (st : Store) (b : GethSpec.Base)
+    (h : StoreEq st b) (hok : AllOK st b txs) : StoreEq (runTxsN st txs) (runTxsG b txs) := by
+  induction txs generalizing st b with
+  | nil => exact h
+  | cons body rest ih => exact ih _ _ (storeEq_step st b h body hok.1) hok.2
+
+/-! ### non-vacuity of the history theorem: two transactions, side conditions evaluated by the kernel -/
+
+def demoTx2 : List Tree :=
+  [ .r (.state 1 0), .w (.addBalance 4 1000000000000), .frame false [ .w (.setNonce 4 9), .w (.setState 1 0 6) ], .w (.setState 1 2 3) ]
+
+theorem demo_txok1 : TxOK demoStore demoBase demoTx := by
+  refine ⟨demoTx_ok, fun s' hr a o ho _ => ?_, fun a ⟨x, hx, _, hn, hb, _⟩ => ?_⟩
+  · have e : s' = demoFinal := by unfold demoFinal; rw [hr]; rfl
+    subst e
+    have hobjs : demoFinal.objs =
+        [(1, { balance := 8000000000000, nonce := 2, codeHash := 7, origin := [(0, 9)], dirty := [(0, 5)] }),
+         (4, { balance := 2000000000000, origin := [(7, 0)] })] := by decide
+    rw [hobjs] at ho
+    by_cases h1 : a = 1
+    · subst h1; simp [AList.find?] at ho; subst ho; exact ⟨8, by simp [weiPerUnibi]⟩
+    · by_cases h4 : a = 4
+      · subst h4; simp [AList.find?] at ho; subst ho; exact ⟨2, by simp [weiPerUnibi]⟩
+      · have n1 : (1 : Nat) ≠ a := fun e => h1 e.symm
+        have n4 : (4 : Nat) ≠ a := fun e => h4 e.symm
+        simp [AList.find?, n1, n4] at ho
+  · have hobjs : (runGTL { base := demoBase } demoTx).tx.objs =
+        [(1, { balance := 8000000000000, nonce := 2, code := 7, storage := [(0, 5)] }),
+         (4, { balance := 2000000000000, fresh := true })] := by decide
+    rw [hobjs] at hx
+    by_cases h1 : a = 1
+    · subst h1; simp [AList.find?] at hx; subst hx; simp at hn
+    · by_cases h4 : a = 4
+      · subst h4; simp [AList.find?] at hx; subst hx; simp at hb
+      · have n1 : (1 : Nat) ≠ a := fun e => h1 e.symm
+        have n4 : (4 : Nat) ≠ a := fun e => h4 e.symm
+        simp [AList.find?, n1, n4] at hx
+
+def demoStore2 : Store := persistN demoStore demoTx
+def demoBase2 : GethSpec.Base := persistG demoBase demoTx
+def demoFinal2 : S := (runTL { txStore := demoStore2 } demoTx2).getD {}
+
+theorem demo_txok2 : TxOK demoStore2 demoBase2 demoTx2 := by
+  refine ⟨by simp [demoTx2, Tree.OKL2, Tree.OK2], fun s' hr a o ho _ => ?_, fun a ⟨x, hx, _, hn, hb, _⟩ => ?_⟩
+  · have e : s' = demoFinal2 := by unfold demoFinal2; rw [hr]; rfl
+    subst e
+    have hobjs : demoFinal2.objs =
+        [(1, { balance := 8000000000000, nonce := 2, codeHash := 7, origin := [(0, 5), (2, 0)], dirty := [(0, 5), (2, 3)] }),
+         (4, { balance := 3000000000000 })] := by decide
+    rw [hobjs] at ho
+    by_cases h1 : a = 1
+    · subst h1; simp [AList.find?] at ho; subst ho; exact ⟨8, by simp [weiPerUnibi]⟩
+    · by_cases h4 : a = 4
+      · subst h4; simp [AList.find?] at ho; subst ho; exact ⟨3, by simp [weiPerUnibi]⟩
+      · have n1 : (1 : Nat) ≠ a := fun e => h1 e.symm
+        have n4 : (4 : Nat) ≠ a := fun e => h4 e.symm
+        simp [AList.find?, n1, n4] at ho
+  · have hobjs : (runGTL { base := demoBase2 } demoTx2).tx.objs =
+        [(4, { balance := 3000000000000 }),
+         (1, { balance := 8000000000000, nonce := 2, code := 7, storage := [(2, 3)] })] := by decide
+    rw [hobjs] at hx
+    by_cases h1 : a = 1
+    · subst h1; simp [AList.find?] at hx; subst hx; simp at hn
+    · by_cases h4 : a = 4
+      · subst h4; simp [AList.find?] at hx; subst hx; simp at hb
+      · have n1 : (1 : Nat) ≠ a := fun e => h1 e.symm
+        have n4 : (4 : Nat) ≠ a := fun e => h4 e.symm
+        simp [AList.find?, n1, n4] at hx
+
+/-- two transactions in a row: the stores agree after both (account 1: nonce 2, code 7, 8 unibi, slots 0 ↦ 5 and 2 ↦ 3;
+    account 4: 3 unibi) -/
+example : StoreEq (runTxsN demoStore [demoTx, demoTx2]) (runTxsG demoBase [demoTx, demoTx2]) :=
+  C03_history_commits_match_reference_partial _ _ _ ⟨demoStore_ok, demo_acc, fun _ _ => rfl⟩ ⟨demo_txok1, demo_txok2, True.intro⟩
 
 end Nibiru.SDB
